@@ -1,4 +1,4 @@
-\* Strain.tla, thorough tier: 11 references x 77 stretches x 18 rotations = 15246 cases, 214303 states (exhaustive)
+\* Strain.tla, machine Spec, thorough tier: 11 references x 77 stretches x 20 rotations = 16940 cases, 238019 states (exhaustive)
 SPECIFICATION Spec
 CONSTANTS
   REFS <- RefsT
@@ -7,6 +7,15 @@ CONSTANTS
   OBJROTS <- ObjRots
   OBJU0 <- ObjU0
   OBJU0R <- ObjU0R
+  HKINDS <- HKindsAll
+  HREFS <- HRefsQ
+  HSTRETCHES <- HStretchQ
+  HROTS <- HRotsQ
+  HU0R <- HU0RAll
+  HLEN = 2
+  PHASEDICTS <- PhaseDicts
+  NVER = 2
+  MLEN = 2
 INVARIANT RefLatticeOK
 INVARIANT PolarOK
 INVARIANT RefIsSethHill
